@@ -190,7 +190,7 @@ PROPS = {
         "modelled": ["ReservePlanner::{required_after, sender_index, build_schedule}, AccountReserveSchedule::required_after", "delegated_debits_since, is_root_value_transfer, balance_before_entry", "has_reserve_violation (the comparison final < min(before, future cost), future cost non-zero)"],
         "assumptions": ["TxEffect.Sane (hypotheses of fundable): outside delegated execution a transaction lowers an account's balance by at most the sender's own maximum cost; the forced revert restores the post-fee state (revm's checkpoint_revert; exercised by the e2e fundability check)", "the OnceLock/DashMap caching of the planner is abstracted as a pure function (query-order independence is exercised by the differential)"],
         "partial": ["the forced revert itself (checkpoint revert, create-nonce restore, refund and reimbursement re-application in handler.rs enforce_reserve) is not modelled; it is covered by the parallel = sequential comparison and the policy-off comparison only up to the first forced revert of a block"],
-        "explanation": "Theorems planner_spec (the implemented index + suffix array + binary search equals the saturating cost of the account's later transactions), reqFrom_eq_min, requiredSpec_step, balance_before_exact (undoing the surviving journal yields the balance before the first debit), violates_iff, no_candidates_no_violation, no_future_cost_no_violation, step_keeps_reserve, fundable (block-level: an account that can pay all its transactions at block start can pay each of them when its turn comes); required_after_antitone (the demand never grows as the block advances), required_after_last / last_transaction_never_violates, required_after_no_later_tx (only accounts with transactions still to come are protected), debit_ok_stays_ok.",
+        "explanation": "Theorems planner_spec (the implemented index + suffix array + binary search equals the saturating cost of the account's later transactions), reqFrom_eq_min, requiredSpec_step, balance_before_exact (undoing the surviving journal yields the balance before the first debit), violates_iff, no_candidates_no_violation, no_future_cost_no_violation, step_keeps_reserve, fundable (block-level: an account that can pay all its transactions at block start can pay each of them when its turn comes); required_after_antitone (the demand never grows as the block advances), required_after_last / last_transaction_never_violates, required_after_no_later_tx (only accounts with transactions still to come are protected), debit_ok_stays_ok; firstDebits_sound / delegatedDebits_sound (the scan reports only delegated accounts, each at most once, at an index inside the journal, with its final balance).",
     },
     "C14": {
         "lean_modules": ["Props.C14"],
